@@ -3,7 +3,7 @@
 use printer::{Print, tokens::SWITCH};
 
 use super::CodeStatement;
-use crate::fresh_labels::fresh_label;
+use crate::fresh_labels::fresh_table_label;
 use crate::utils::{code_clauses, code_table};
 use crate::{
     code::Instructions,
@@ -32,14 +32,18 @@ impl CodeStatement for Switch {
         let comment = format!("{SWITCH} {} \\{{ ... \\}};", self.var.print_to_string(None));
         instructions.push(Backend::comment(comment));
 
-        let fresh_label = format!(
-            "{}_{}",
-            self.ty
+        let fresh_label = fresh_table_label(
+            &self
+                .ty
                 .print_to_string(None)
                 .replace('[', "_")
                 .replace(", ", "_")
                 .replace(']', ""),
-            fresh_label()
+            &self
+                .clauses
+                .iter()
+                .map(|clause| clause.xtor.print_to_string(None))
+                .collect::<Vec<_>>(),
         );
 
         let number_of_clauses = self.clauses.len();
